@@ -261,15 +261,11 @@ func vfTier(in *Interp, fn *ssa.Function, a []Value) Value {
 // after another in an order chosen by a choice fork, tagging logged events with the thread number.
 func vfPar(in *Interp, fn *ssa.Function, a []Value) Value {
 	fs := in.sliceElems(a[0].(SliceV))
-	n := len(fs)
-	perms := permutations(n)
-	order := perms[in.choice(len(perms))]
-	for _, idx := range order {
-		in.curThread = idx + 1
-		fv := fs[idx].(FuncV)
-		in.callFn(fv.fn, nil, fv.env)
+	bodies := make([]FuncV, len(fs))
+	for i, f := range fs {
+		bodies[i] = f.(FuncV)
 	}
-	in.curThread = 0
+	in.runParallel(bodies)
 	in.parRegions++
 	return nil
 }
